@@ -288,10 +288,16 @@ def native_tables(ck):
                 small = NssConfig()
                 small.simulation.thrown_events = 60
                 np.random.seed(ck.seed + 1)
-                final = C.compute(small, output_file=out, write_stages=True)
-            got = Table.read(out, format="fits")
+                try:
+                    final = C.compute(small, output_file=out, write_stages=True)
+                except Exception as ex:
+                    final = None
+                    n += 1
+                    fails.append({"obligation": "bounded.preexisting_file", "clause": "a run whose output path already holds the results file of an earlier run completes and replaces it", "input": {"earlier run": "1500 thrown events", "this run": "60 thrown events", "same output path": True, "write_stages": True},
+                                  "observed": "compute() raised %s: %s" % (type(ex).__name__, str(ex)[:200])})
+            got = Table.read(out, format="fits") if final is not None else None
             n += 1
-            if len(got) != len(final) or got.colnames != final.colnames:
+            if final is not None and (len(got) != len(final) or got.colnames != final.colnames):
                 fails.append({"obligation": "bounded.preexisting_file", "clause": "a results file already at the output path is replaced by this run's table", "input": {"earlier run": "1500 thrown events", "this run": "60 thrown events", "same output path": True},
                               "observed": {"rows in the file": len(got), "rows of this run": len(final)}})
         finally:
@@ -419,8 +425,10 @@ def run(ck):
         for staged in (True, False) + ((None,) if (o and r) else ()):
             analyse(ck, mode, o, r, staged)
     # the file that holds the prefix is the one the caller named, whatever the name looks like (no extension, another extension, dots in a directory)
-    for name in ("nuspacesim_run_20260926", "run.v2/checkpoint", "results.dat"):
-        analyse(ck, "Diffuse", True, True, True, output_file=name)
+    import pathlib
+
+    for name in ("nuspacesim_run_20260926", "run.v2/checkpoint", "results.dat", pathlib.PurePosixPath("results/run7.fits")):
+        analyse(ck, "Diffuse", True, True, True, output_file=name)  # (the last one: a path object, which astropy and open() accept like a string)
     for mode in ("Diffuse", "Target"):
         analyse_faults(ck, mode)
         analyse_write_faults(ck, mode)
